@@ -220,7 +220,7 @@ Proof.
     induction idxs as [|i idxs IH]; intros [|d data]; cbn [combine filter map existsb length]; try reflexivity.
     cbn [snd fst]. destruct (bk_invalid fill d) eqn:Ed; cbn [map filter fst].
     + destruct (i =? k) eqn:Ek; cbn [map snd existsb length].
-      * rewrite Ed. cbn. destruct (length _); reflexivity.
+      * rewrite Ed. cbn [orb]. apply Z.ltb_lt. lia.
       * apply IH.
     + destruct (i =? k) eqn:Ek; cbn [map snd existsb]; [rewrite Ed; cbn|]; apply IH.
   - unfold bk_missing_idxs. apply Forall_forall. intros i Hin. apply in_map_iff in Hin.
@@ -359,7 +359,7 @@ Section Cells.
       rewrite histZ_members by (auto; apply combine_lt_size, idxs_lt_size; lia).
       rewrite members_combine_map, sum_wval. reflexivity.
     - rewrite histZ_total by assumption. rewrite combine_map_snd.
-      rewrite <- sum_wval. unfold bk_inside_data.
+      rewrite <- sum_wval.
       rewrite <- (kept_inside_data a pts data) by lia.
       set (l := combine (bk_idxs OP a pts) data). clearbody l. clear.
       induction l as [|p l IH]; [reflexivity|]. cbn [map filter fst snd].
